@@ -977,7 +977,9 @@ def check_unit_triangle(M, p, rep):
 
 # ------------------------------------------------------------------------------------- rings
 def _defects(tier):
-    return [0.0, 0.3, PI / 2, PI] + ([5.0] if tier == "thorough" else [])
+    # 6.0 and 6.2 lie beyond what the initial search interval of the apex bisection reaches (apex height 10 gives
+    # a defect of about 5.7): they exercise the branch that grows the interval. The admissible maximum is 2*pi-0.01.
+    return [0.0, 0.3, PI / 2, PI, 6.0, 6.2] + ([5.0, 2 * PI - 0.01] if tier == "thorough" else [])
 
 
 def enum_ring(tier):
@@ -1363,13 +1365,13 @@ GENERATORS = {
 PINNED = {
     "quick": {'tetrahedron': 8, 'hexahedron': 24, 'axis_aligned_cube': 4, 'hexahedron_4pts': 16, 'octahedron': 1,
               'dodecahedron': 1, 'icosahedron': 12, 'cylinder': 96, 'torus': 64, 'sphere_uv': 120, 'icosphere': 18,
-              'sphere_fibonacci': 54, 'triangle': 4, 'quad': 8, 'unit_grid': 100, 'unit_triangle': 50, 'ring': 64,
-              'flat_ring': 32, 'dual_mesh': 36, 'chain_of_vertices': 10, 'vector_field': 36, 'spherify_vertices': 24,
+              'sphere_fibonacci': 54, 'triangle': 4, 'quad': 8, 'unit_grid': 100, 'unit_triangle': 50, 'ring': 96,
+              'flat_ring': 48, 'dual_mesh': 36, 'chain_of_vertices': 10, 'vector_field': 36, 'spherify_vertices': 24,
               'cylindrify_edges': 32},                                                             # 814 cases
     "thorough": {'tetrahedron': 54, 'hexahedron': 24, 'axis_aligned_cube': 4, 'hexahedron_4pts': 16, 'octahedron': 1,
                  'dodecahedron': 1, 'icosahedron': 12, 'cylinder': 360, 'torus': 1000, 'sphere_uv': 660, 'icosphere': 30,
-                 'sphere_fibonacci': 462, 'triangle': 4, 'quad': 8, 'unit_grid': 484, 'unit_triangle': 242, 'ring': 300,
-                 'flat_ring': 150, 'dual_mesh': 60, 'chain_of_vertices': 22, 'vector_field': 36, 'spherify_vertices': 36,
+                 'sphere_fibonacci': 462, 'triangle': 4, 'quad': 8, 'unit_grid': 484, 'unit_triangle': 242, 'ring': 480,
+                 'flat_ring': 240, 'dual_mesh': 60, 'chain_of_vertices': 22, 'vector_field': 36, 'spherify_vertices': 36,
                  'cylindrify_edges': 80},                                                          # 4046 cases
 }
 
